@@ -9,6 +9,7 @@ import (
 	"fmt"
 	"math"
 	"math/rand"
+	"os"
 	"runtime"
 	"strconv"
 	"strings"
@@ -48,7 +49,13 @@ type result struct {
 	minHeightAfter                              uint64
 }
 
-type exec struct{ last *result }
+type exec struct {
+	last    *result
+	glast   *gresult
+	ps      *cs.PeerState // `ps` ops: the peer state of the current case
+	badPick []string      // `ba`/`ps` ops: returned indices that are not set bits of the array picked from
+	skippedPick int
+}
 
 func (P) NewExec() hx.Executor { return &exec{} }
 
@@ -403,8 +410,28 @@ func (e *exec) Exec(op string) string {
 	toks := hx.Tokens(op)
 	switch toks[0] {
 	case "case":
-		e.last = nil
+		e.last, e.glast, e.ps, e.badPick = nil, nil, nil, nil
 		return "ok"
+	case "ba":
+		return e.execBA(toks)
+	case "ps":
+		return e.execPS(toks)
+	case "bacheck":
+		s := fmt.Sprintf("badpick=%d", len(e.badPick))
+		if len(e.badPick) > 0 {
+			s += " first=" + e.badPick[0]
+		}
+		return s
+	case "gossip", "gscen":
+		p := parse(toks)
+		p.only, _ = hx.Arg(toks, "msgs")
+		e.glast = runGossip(p)
+		return "ok"
+	case "gdiag":
+		if e.glast == nil {
+			return "nosim"
+		}
+		return gdiag(e.glast)
 	case "fuzz", "inject":
 		e.last = run(parse(toks))
 		return "ok"
@@ -438,6 +465,31 @@ func b2i(b bool) int {
 func (P) Monitor(c *hx.CaseRun) []hx.Failure {
 	var fs []hx.Failure
 	for i, op := range c.Ops {
+		if strings.HasPrefix(op, "bacheck") {
+			toks := hx.Tokens(c.Impl[i])
+			if v, _ := hx.Arg(toks, "badpick"); v != "0" {
+				fs = append(fs, hx.Failure{Monitor: "picked_is_what_node_has_and_peer_lacks", Class: "bad-pick", Site: "libs/common/bit_array.go", Msg: c.Impl[i]})
+			}
+			continue
+		}
+		if strings.HasPrefix(op, "gdiag") {
+			toks := hx.Tokens(c.Impl[i])
+			if v, _ := hx.Arg(toks, "dead"); v == "1" {
+				site, _ := hx.Arg(toks, "site")
+				fs = append(fs, hx.Failure{Monitor: "gossip_routines_survive_peer_state", Class: "gossip-halt@" + site, Site: site,
+					Msg: "one iteration of a per-peer gossip routine (started by AddPeer with `go`, no recover) panicked on the peer state the peer's own messages built: the process ends; see the `gscen` op for the messages"})
+			}
+			if v, _ := hx.Arg(toks, "hung"); v != "0" && v != "" {
+				fs = append(fs, hx.Failure{Monitor: "gossip_routines_return", Class: "gossip-deadlock", Site: "consensus/reactor.go", Msg: c.Impl[i]})
+			}
+			if v, _ := hx.Arg(toks, "badsend"); v != "0" && v != "" {
+				fs = append(fs, hx.Failure{Monitor: "gossip_sends_only_what_the_node_has", Class: "gossip-bad-send", Site: "consensus/reactor.go", Msg: c.Impl[i]})
+			}
+			if v, _ := hx.Arg(toks, "bigalloc"); v != "0" && v != "" {
+				fs = append(fs, hx.Failure{Monitor: "bounded_allocation_per_message", Class: "unbounded-allocation", Site: "libs/common/bit_array.go", Msg: c.Impl[i]})
+			}
+			continue
+		}
 		if !strings.HasPrefix(op, "diag") {
 			continue
 		}
@@ -458,6 +510,16 @@ func (P) Monitor(c *hx.CaseRun) []hx.Failure {
 }
 
 func (P) Generate(g *hx.Gen) {
+	only := os.Getenv("C16_ONLY") // debugging aid: unit | gossip | fuzz (empty = everything)
+	if only == "" || only == "unit" {
+		genUnit(g)
+	}
+	if only == "" || only == "gossip" {
+		genGossip(g)
+	}
+	if only != "" && only != "fuzz" {
+		return
+	}
 	// corpus: the defects found on the pinned tree (repaired by fix: commits; they must stay repaired)
 	total := g.Pick(50, 1200)
 	for k := 0; k < total; k++ {
